@@ -405,6 +405,40 @@ def check(run, repo):
         if not diffs:
             run.check(ok2, 'TABLE.repeat', label, 'second-cycle',
                       'encoding the decoded object does not give the same dictionary again', mod_td, fn_td)
+        # the direct path: the nested dictionary as to_dict()/a stored document gives it, handed to the decoder as
+        # it is (from_dict decodes the nested entries itself). The dictionary must come out as it went in - at every
+        # depth - or decoding it a second time meets objects where it expects dictionaries.
+        try:
+            stored = deep_copy(enc)
+            snap = deep_copy(enc)
+            r_ = I.call_function(jm, jm.functions['json_to_pmutt'], [stored], {})
+        except (Unsupported, Problem):
+            r_ = None
+        if isinstance(r_, Obj):
+            def first_diff(x, y, path='$'):
+                if isinstance(x, DictV) and isinstance(y, DictV):
+                    if list(x.d) != list(y.d):
+                        return path, 'keys %s became %s' % (sorted(map(str, y.d)), sorted(map(str, x.d)))
+                    for k_ in x.d:
+                        got_ = first_diff(x.d[k_], y.d[k_], '%s[%r]' % (path, k_))
+                        if got_:
+                            return got_
+                    return None
+                if isinstance(x, ListV) and isinstance(y, ListV) and len(x) == len(y):
+                    for i_, (p_, q_) in enumerate(zip(x.items, y.items)):
+                        got_ = first_diff(p_, q_, '%s[%d]' % (path, i_))
+                        if got_:
+                            return got_
+                    return None
+                if deep_same(x, y):
+                    return None
+                return path, 'is now %s' % (('a %s object' % x.ci.name) if isinstance(x, Obj) and x.ci else show(x, 60))
+            fd_ = first_diff(stored, snap)
+            o_fd = repo.find_method(ci, 'from_dict', missing_ok=True)
+            run.check(fd_ is None, 'EFFECT.decode-mutates', ci.name + '.from_dict', 'nested entries of the caller\'s dictionary',
+                      'decoding the dictionary of a %s directly alters it: %s %s (decoding is not repeatable)'
+                      % (label, fd_[0] if fd_ else '', fd_[1] if fd_ else ''),
+                      o_fd[0].module if o_fd else jm, o_fd[1] if o_fd else jm.functions['json_to_pmutt'])
     # encoder: default() must return (or raise) on every path
     enc_ci = jm.classes.get('pmuttEncoder')
     if enc_ci is None or 'default' not in enc_ci.methods:
